@@ -70,7 +70,14 @@ def _enum_cls(family):
 
 
 def _member(family, value):
-    return _enum_cls(family)(value)
+    """The member whose value is the documented canonical name `value` (the statement's "own canonical name": the names of
+    vlib/ref_label.py, taken from the documentation's label tables)."""
+    from vlib.harness import PropertyViolation
+
+    try:
+        return _enum_cls(family)(value)
+    except ValueError:
+        raise PropertyViolation(f"C14:canonical-name-not-a-member-value:{family}:{value}", f"the {family} label family has no member whose value is the documented canonical name {value!r}") from None
 
 
 def _conv(task, merge, family, count=False):
